@@ -3,6 +3,7 @@
 import math
 import typing as t
 from contextlib import contextmanager
+import unicodedata
 from functools import update_wrapper
 from io import StringIO
 from itertools import chain
@@ -121,6 +122,18 @@ def generate(
         return generator.stream.getvalue()  # type: ignore
 
     return None
+
+
+def block_ident(name: str) -> str:
+    """The name of the function generated for a block."""
+    ident = f"block_{name}"
+
+    if unicodedata.normalize("NFKC", ident) != ident:
+        # Python compares identifiers in their NFKC form, the function
+        # would replace the one of another block.
+        ident = f"blockx_{name.encode().hex()}"
+
+    return ident
 
 
 def has_safe_repr(value: t.Any) -> bool:
@@ -493,7 +506,7 @@ class CodeGenerator(NodeVisitor):
         # if any of the given keyword arguments is a python keyword
         # we have to make sure that no invalid call is created.
         kwarg_workaround = any(
-            is_python_keyword(t.cast(str, k)) or k == "__debug__"
+            is_python_keyword(t.cast(str, k)) or k == "__debug__" or not k.isascii()
             for k in chain((x.key for x in node.kwargs), extra_kwargs or ())
         )
 
@@ -923,7 +936,7 @@ class CodeGenerator(NodeVisitor):
         # at this point we now have the blocks collected and can visit them too.
         for name, block in self.blocks.items():
             self.writeline(
-                f"{self.func('block_' + name)}(context, missing=missing{envenv}):",
+                f"{self.func(block_ident(name))}(context, missing=missing{envenv}):",
                 block,
                 1,
             )
@@ -940,7 +953,9 @@ class CodeGenerator(NodeVisitor):
                 self.writeline(f"{ref} = TemplateReference(context)")
             if "super" in undeclared:
                 ref = block_frame.symbols.declare_parameter("super")
-                self.writeline(f"{ref} = context.super({name!r}, block_{name})")
+                self.writeline(
+                    f"{ref} = context.super({name!r}, {block_ident(name)})"
+                )
             block_frame.symbols.analyze_node(block)
             block_frame.block = name
             if block.required:
@@ -952,7 +967,8 @@ class CodeGenerator(NodeVisitor):
                 # the most derived definition, wherever it was declared. It
                 # can still be reached through super() from an override.
                 self.writeline(
-                    f"if context.blocks[{name!r}][0] is block_{name}:", block
+                    f"if context.blocks[{name!r}][0] is {block_ident(name)}:",
+                    block,
                 )
                 self.indent()
                 self.writeline(
@@ -967,7 +983,7 @@ class CodeGenerator(NodeVisitor):
             self.leave_frame(block_frame, with_python_scope=True)
             self.outdent()
 
-        blocks_kv_str = ", ".join(f"{x!r}: block_{x}" for x in self.blocks)
+        blocks_kv_str = ", ".join(f"{x!r}: {block_ident(x)}" for x in self.blocks)
         self.writeline(f"blocks = {{{blocks_kv_str}}}", extra=1)
         debug_kv_str = "&".join(f"{k}={v}" for k, v in self.debug_info)
         self.writeline(f"debug_info = {debug_kv_str!r}")
